@@ -16,7 +16,10 @@ type Property struct {
 var registry = map[string]*Property{}
 
 func register(id string, run func(c *engine.Check, tier string)) {
-	registry[id] = &Property{ID: id, Run: run}
+	registry[id] = &Property{ID: id, Run: func(c *engine.Check, tier string) {
+		resolveFieldAnchors(c)
+		run(c, tier)
+	}}
 }
 
 func Get(id string) *Property { return registry[id] }
